@@ -216,17 +216,33 @@ Fixpoint plain_items (b : dblock) {struct b} : bool :=
   end.
 
 (* class "tight tail" (F7): a list that is written tight (no item has two paragraphs) in which
-   some item holds a rule or a table after its text: re-read as a setext heading or as a lazy
-   continuation line *)
+   some item holds a rule or a table after its text (re-read as a setext heading or as a lazy
+   continuation line) or two block quotes in a row (written `> b` `> c` on consecutive lines and
+   re-read as ONE quote).
+   "Written tight" is GraphBlock::is_sparce_list (model/graph.rs:53-64): it counts the Plain/Para
+   blocks of each item, i.e. the paragraphs of the item plus the item text that a LEADING heading
+   becomes; a heading further down in the item stays a heading and does not make the list loose
+   (`1. a⏎⏎   ***⏎2. c⏎⏎   ## d` is written tight). *)
+Definition is_dpara (x : dblock) : bool := match x with DPara _ _ => true | _ => false end.
 Definition item_paras (it : list dblock) : nat :=
-  length (filter (fun x => match x with DPara _ _ | DHeader _ _ _ => true | _ => false end) it).
+  match it with
+  | DHeader _ _ _ :: r => S (length (filter is_dpara r))
+  | _ => length (filter is_dpara it)
+  end.
 Definition tight_list (its : list (list dblock)) : bool := negb (existsb (fun it => Nat.ltb 1 (item_paras it)) its).
+Definition is_dquote (x : dblock) : bool := match x with DQuote _ _ => true | _ => false end.
+Fixpoint adjacent_quotes (l : list dblock) : bool :=
+  match l with
+  | a :: ((b :: _) as r) => (is_dquote a && is_dquote b) || adjacent_quotes r
+  | _ => false
+  end.
 Fixpoint calm_items (b : dblock) {struct b} : bool :=
   let fix go (l : list dblock) : bool := match l with [] => true | x :: r => calm_items x && go r end in
   let fix goi (tight : bool) (l : list (list dblock)) : bool :=
     match l with
     | [] => true
-    | it :: r => negb (tight && existsb (fun x => match x with DRule _ | DTable _ _ _ _ => true | _ => false end) it)
+    | it :: r => negb (tight && (existsb (fun x => match x with DRule _ | DTable _ _ _ _ => true | _ => false end) it
+                                 || adjacent_quotes it))
                  && go it && goi tight r
     end in
   match b with
@@ -453,8 +469,31 @@ Fixpoint has_inline_note_link (b : dblock) {struct b} : bool :=
 
 (* ---------- the four runners ------------------------------------------------------------------ *)
 
+(* class 1 (F-ESC) also through a TITLE: a refreshed link is given the title of the note it names as
+   its text, unescaped like any other text (`# a ]]` in b makes `[t](b)` come back as `[a ]]](b)`).
+   So class 1 holds as well when the note has a refreshable link (regular, to a note) to a note of
+   the library - under either keying, from the note's directory or by the raw url (F9) - whose title
+   (the plain text of a leading heading, Library.extract_ref_text) is not inert text. *)
+Definition note_title_inert (n : note_in) : bool :=
+  match ni_blocks n with
+  | Ok (DHeader _ _ l :: _) => inert_str (inlines_plain_text l)
+  | _ => true
+  end.
+Definition linked_titles_inert (c : libcase) (o : note_obs) : bool :=
+  match note_blocks c (no_key o) with
+  | Some bs =>
+      let d := key_parent (no_key o) in
+      forallb (fun t => let '(k, u, _) := t in
+                 negb (String.eqb k "ref") ||
+                 forallb (fun n => let key := key_from_file_name (ni_name n) in
+                            negb (String.eqb key (from_rel_link_url u d) || String.eqb key (key_from_file_name u))
+                            || note_title_inert n) (lc_notes c))
+              (links_of bs)
+  | None => true
+  end.
+
 Definition base_classes (c : libcase) (o : note_obs) : list N :=
-  note_classes c o ++ flag 5 (negb (existsb title_has_link (lc_notes c))).
+  note_classes c o ++ flag 1 (linked_titles_inert c o) ++ flag 5 (negb (existsb title_has_link (lc_notes c))).
 
 Definition has_kinds (c : libcase) : bool := lib_nontrivial c.
 
